@@ -5,7 +5,10 @@ M  Octree.tla / Quadtree.tla: the traversal (isEmpty with the half-diagonal test
    families: all single L-infinity boxes, sampled two-box unions/differences (thin features), boxes
    cut by a diagonal plane of gradient 0.99 (the tight case of the emptiness test).
 R  every exported scene is rendered by the REAL renderer, for f and for f/1024 (nothing prunable).
-T  OctTrace.tla / QuadTrace.tla judge: hierarchical output = exhaustive output (the property),
+T  exact Euclidean balls / discs whose surface clips the corner of a level-n cube by 3e-6 .. 3e-3 of its side
+   (the tight case of the half-diagonal test), and sequences of renders of one object at changing
+   resolutions in one process; HierTrace.tla judges hierarchical = exhaustive (f vs f/1024, exact floats).
+   OctTrace.tla / QuadTrace.tla judge: hierarchical output = exhaustive output (the property),
    = the flat-scan model, every vertex the linear zero crossing of a straddling lattice edge;
    the hook-recorded isEmpty decisions are compared with the model's traversal (drift only).
 """
@@ -107,6 +110,13 @@ def run(chk, replay):
     ]
     if replay:
         r = replay["replay"]
+        if r.get("kind") == "tight":
+            out = chk.vh(["c07-tight"], timeout=1800)
+            hobs = [json.loads(x) for x in out.splitlines() if x.strip()]
+            for e, why in chk.validate("HierTrace", hobs, chunks=1, timeout=600):
+                chk.violation("hier:%s:%dd:cells%d:seq%d" % (e["name"], e["dim"], e["cells"], e["seq"]), why, dict(kind="tight", obs=e))
+            chk.traces += len(hobs)
+            return
         if r["dim"] == 3:
             run_dim(chk, 3, "OctreeM", "OctTrace", "c07-replay", None, [r["vector"]])
         else:
@@ -124,6 +134,17 @@ def run(chk, replay):
     if chk.violations:
         return
     run_dim(chk, 2, "QuadtreeM", "QuadTrace", "c07-replay2", p2)
+    # ---- T: real Euclidean fields: tight tangency to cube corners, render sequences in one process
+    out = chk.vh(["c07-tight"], timeout=1800)
+    hobs = [json.loads(x) for x in out.splitlines() if x.strip()]
+    badh = chk.validate("HierTrace", hobs, chunks=1, timeout=600)
+    chk.traces += len(hobs)
+    for e, why in badh:
+        chk.violation("hier:%s:%dd:cells%d:seq%d:%s" % (e["name"], e["dim"], e["cells"], e["seq"], e["param"].strip().replace(" ", ",")),
+                      "real %dD hierarchical render '%s' (cells=%d, %s) differs from the exhaustive render: %d items differ (%d vs %d)" % (
+                          e["dim"], e["name"], e["cells"], e["param"], e["diff"], e["n"], e["nflat"]),
+                      dict(kind="tight", obs=e))
+    chk.cov["euclidean_tight_and_sequence_renders"] = len(hobs)
     chk.cov["rule"] = ("scene = exact lattice field (boxes / diagonal planes, union, difference, intersection); TLC "
                        "enumerates or LCG-samples scenes, checks the traversal model, and each scene is rendered by "
                        "the real hierarchical renderer and judged by the trace spec")
